@@ -6,7 +6,11 @@
 (* multiple of 90 degrees and moved by (dx, dy).  TLC lists the squared    *)
 (* distance of every particle pair; with r^2 = k the pair law gives        *)
 (* q = 1/k^3, so each term is 4 (1/k^6 - 1/k^3) (shifted and cut at        *)
-(* rc^2 = C when a cutoff is set).                                         *)
+(* rc^2 = C when a cutoff is set).  The two molecules may carry different  *)
+(* cutoffs (c2 for A, cb2 for B): the property then still demands that the *)
+(* energy is the sum over the particle pairs and the same from either      *)
+(* side; PairCut is the pair's cutoff (the larger one; the one that is set *)
+(* when only one is).                                                      *)
 (***************************************************************************)
 EXTENDS Integers, Sequences, FiniteSets
 CONSTANTS OffSet, CutSet     \* CutSet: squared cutoffs, 0 = none
@@ -17,8 +21,9 @@ Catalogue == << << <<0, 0>> >>,
                 << <<0, 0>>, <<1, 0>>, <<2, 0>>, <<3, 0>>, <<4, 0>>, <<5, 0>>, <<6, 0>>, <<7, 0>>, <<8, 0>> >>,
                 << <<0, 0>>, <<1, 1>>, <<-1, 1>> >> >>
 
-VARIABLES ma, mb, turn, dx, dy, c2
-vars == <<ma, mb, turn, dx, dy, c2>>
+VARIABLES ma, mb, turn, dx, dy, c2, cb2
+vars == <<ma, mb, turn, dx, dy, c2, cb2>>
+PairCut == IF c2 = 0 THEN cb2 ELSE IF cb2 = 0 THEN c2 ELSE IF c2 > cb2 THEN c2 ELSE cb2
 
 Turn(p, t) == CASE t = 0 -> p [] t = 1 -> <<-p[2], p[1]>> [] t = 2 -> <<-p[1], -p[2]>> [] OTHER -> <<p[2], -p[1]>>
 A == Catalogue[ma]
@@ -27,12 +32,13 @@ B == [i \in 1..Len(Catalogue[mb]) |-> << Turn(Catalogue[mb][i], turn)[1] + dx, T
 K == [i \in 1..Len(A) |-> [j \in 1..Len(B) |-> (A[i][1] - B[j][1]) * (A[i][1] - B[j][1]) + (A[i][2] - B[j][2]) * (A[i][2] - B[j][2])]]
 NoContact == \A i \in 1..Len(A), j \in 1..Len(B) : K[i][j] > 0
 
-Init == ma = 1 /\ mb = 1 /\ turn = 0 /\ dx = 1 /\ dy = 0 /\ c2 \in CutSet
-Next == \/ \E m \in 1..Len(Catalogue) : ma' = m /\ UNCHANGED <<mb, turn, dx, dy, c2>>
-        \/ \E m \in 1..Len(Catalogue) : mb' = m /\ UNCHANGED <<ma, turn, dx, dy, c2>>
-        \/ \E t \in 0..3 : turn' = t /\ UNCHANGED <<ma, mb, dx, dy, c2>>
-        \/ \E x \in OffSet : dx' = x /\ UNCHANGED <<ma, mb, turn, dy, c2>>
-        \/ \E y \in OffSet : dy' = y /\ UNCHANGED <<ma, mb, turn, dx, c2>>
+Init == ma = 1 /\ mb = 1 /\ turn = 0 /\ dx = 1 /\ dy = 0 /\ c2 \in CutSet /\ cb2 = c2
+Next == \/ \E m \in 1..Len(Catalogue) : ma' = m /\ UNCHANGED <<mb, turn, dx, dy, c2, cb2>>
+        \/ \E m \in 1..Len(Catalogue) : mb' = m /\ UNCHANGED <<ma, turn, dx, dy, c2, cb2>>
+        \/ \E t \in 0..3 : turn' = t /\ UNCHANGED <<ma, mb, dx, dy, c2, cb2>>
+        \/ \E x \in OffSet : dx' = x /\ UNCHANGED <<ma, mb, turn, dy, c2, cb2>>
+        \/ \E y \in OffSet : dy' = y /\ UNCHANGED <<ma, mb, turn, dx, c2, cb2>>
+        \/ \E c \in CutSet : cb2' = c /\ UNCHANGED <<ma, mb, turn, dx, dy, c2>>
 Spec == Init /\ [][Next]_vars
 \* the pair list is symmetric in the two molecules: swapping them transposes it
 ModelOK == \A i \in 1..Len(A), j \in 1..Len(B) : K[i][j] >= 0
